@@ -262,7 +262,21 @@ def run_shards(mod, tier, shards, seed=0, nproc=None):
     pool = ctx.Pool(min(nproc, len(order)), initializer=_worker_init,
                     initargs=(mod.__name__, tier), maxtasksperchild=1)
     try:
-        for i, acc, err, dt in pool.imap_unordered(_worker_run, order, chunksize=1):
+        it = pool.imap_unordered(_worker_run, order, chunksize=1)
+        # a worker process that dies (killed, crashed interpreter) loses its shard and imap would wait for ever: waiting is
+        # made visible - no shard result for a long time is a harness error, not a silent hang
+        limit = 1200 if tier == 'quick' else 4 * 3600
+        done = 0
+        while done < len(order):
+            try:
+                i, acc, err, dt = it.next(timeout=limit)
+            except multiprocessing.TimeoutError:
+                errors.append('no shard finished within %d s (%d of %d shards done): a worker process was lost or a shard does '
+                              'not terminate' % (limit, done, len(order)))
+                break
+            except StopIteration:
+                break
+            done += 1
             merged.merge(acc)
             if err:
                 errors.append(err)
